@@ -89,3 +89,8 @@ pub(crate) fn lat_ring_f64(n: usize, k: i32) -> LineString<f64> {
 pub(crate) fn ring_closed<T: CoordNum>(ls: &LineString<T>) -> bool {
     ls.0.is_empty() || ls.0[0] == ls.0[ls.0.len() - 1]
 }
+
+/// model of the libm function behind `f64::hypot` (a foreign C function Kani cannot execute): sqrt of the sum
+/// of squares.  ASSUMPTION where used: hypot(a, b) == sqrt(a*a + b*b) (exact on the 3-4-5 style inputs used).
+#[cfg(kani)]
+pub(crate) fn hypot_model(a: f64, b: f64) -> f64 { (a * a + b * b).sqrt() }
